@@ -153,8 +153,18 @@ end
 
 def locs : List B := [s "query", s "header", s "path", s "cookie"]
 
+/-- the `style` enumeration of the Parameter Object, per location (transcribed from the meta-schemas);
+    `[]` = no `style` member -/
+def specStyleOK (loc style : B) : Bool :=
+  style.isEmpty ||
+  (loc == s "path" && [s "matrix", s "label", s "simple"].contains style) ||
+  (loc == s "query" && [s "form", s "spaceDelimited", s "pipeDelimited", s "deepObject"].contains style) ||
+  (loc == s "header" && style == s "simple") ||
+  (loc == s "cookie" && style == s "form")
+
 def wfParam (v : Version) (p : Param Schema) : Bool :=
-  !p.name.isEmpty && locs.contains p.loc && (p.loc != s "path" || p.required) && wfSchema v p.schema
+  !p.name.isEmpty && locs.contains p.loc && (p.loc != s "path" || p.required) && specStyleOK p.loc p.style &&
+  wfSchema v p.schema
 
 /-- a key of the Responses Object: `default` or `^[1-5](?:\d{2}|XX)$` (transcribed from the meta-schemas) -/
 def specCodeOK (c : B) : Bool :=
